@@ -186,10 +186,11 @@ theorem followLoop_ind {cfg : Cfg} {self : String} {upTo : Nat} {P : Nat → Nod
     simp only
     split
     · exact h1
-    · exact h1
     · split
-      · exact ih _ h1
       · exact h1
+      · split
+        · exact ih _ h1
+        · exact h1
 
 /-! ### only verified beacons are written -/
 
@@ -322,6 +323,20 @@ theorem inOrder_step {n0 n n' : Node} {b : Beacon} (h : InOrder n0 n) (ha : Appe
     exact hl k hk
 
 theorem inOrder_calls {n0 n : Node} (c : List (String × Nat)) (h : InOrder n0 n) : InOrder n0 { n with calls := c } := h
+
+/-- the beacons written since `n0` have rounds up to the new head -/
+theorem inOrder_rounds_le {n0 n : Node} (h : InOrder n0 n) :
+    ∀ w ∈ n.writes.take (n.writes.length - n0.writes.length), w.stored.round ≤ n.head := by
+  obtain ⟨_, _, ws, hw, hr, hh, _⟩ := h
+  intro w hwm
+  rw [hw] at hwm
+  have : (ws ++ n0.writes).length - n0.writes.length = ws.length := by simp
+  rw [this, List.take_left'] at hwm
+  · have hm : w.stored.round ∈ ws.reverse.map (·.stored.round) := List.mem_map.2 ⟨w, List.mem_reverse.2 hwm, rfl⟩
+    rw [hr] at hm
+    have := List.mem_range'_1.1 hm
+    omega
+  · rfl
 
 theorem roundOk_follow {cfg : Cfg} (hrc : cfg.roundCheck = true) {f upTo last : Nat} {b : Beacon}
     (h : roundOk cfg false f upTo last b = true) : b.round = last + 1 := by
@@ -1529,19 +1544,31 @@ theorem c10_follow_retry (cfg : Cfg) (hfr : cfg.followRetry = true) (chain : Nat
     obtain ⟨hok, hh, _, hoc⟩ :=
       c10_converges cfg chain self upTo H m pre post hp hIm hgm hle hg.1.1 hg.2 hm hH hhon hself hpre
     obtain ⟨g, _, _⟩ := sync_any (upTo := upTo) hI hgood self (pre ++ hp :: post) false m hg hm
-    simp only [List.nil_append, followLoop, hok]
+    simp only [List.nil_append, followLoop, hok, true_or, if_true]
     exact ⟨trivial, hh, g⟩
   | cons ps earlier ih =>
     intro m hns hg hm
     obtain ⟨g, r1, r2⟩ := sync_any (upTo := upTo) hI hgood self ps false m hg hm
     obtain ⟨_, hnc⟩ := sync_nostall cfg self 0 upTo ps m (hns ps List.mem_cons_self)
+    have hIm : Ideal cfg.verify m.st.chained chain := by rw [hg.1.2.1]; exact hI
+    have hgm : cfg.mode = .participant ∨ cfg.roundCheck = true ∨ m.st.chained = true := by rw [hg.1.2.1]; exact hgood
+    obtain ⟨gl, _, _⟩ := sync_any (upTo := upTo) hIm hgm self ps false m (good_refl hg.1.1 hg.2) hm
     simp only [List.cons_append, followLoop]
     cases hres : (sync cfg self 0 upTo false m ps).2.1 with
     | ok => exact ⟨by simp, r1 hres, g⟩
     | cancelled => exact absurd hres hnc
     | failedAll =>
-      simp only [hfr, if_true]
-      exact ih _ (fun qs hq => hns qs (List.mem_cons_of_mem _ hq)) g (r2 (by rw [hres]; simp))
+      have hlt' := r2 (by rw [hres]; simp)
+      have hpd : progressDone upTo m (sync cfg self 0 upTo false m ps).1 = false := by
+        unfold progressDone
+        have := inOrder_rounds_le gl.1
+        simp only [Bool.and_eq_false_iff, decide_eq_false_iff_not, List.any_eq_false, decide_eq_true_eq]
+        right
+        intro w hw
+        have := this w hw
+        omega
+      simp only [hpd, hfr, if_true, Bool.false_eq_true, or_self, if_false, reduceCtorEq]
+      exact ih _ (fun qs hq => hns qs (List.mem_cons_of_mem _ hq)) g hlt'
 
 /-
 Full statement wanted for the as-is code: c10_follow_retry without `followRetry`. It does not hold: StartFollowChain
